@@ -130,6 +130,7 @@ MUTANTS["C09"] = [
     ("dont_commit-ignored-in-job", "annet/api/__init__.py", "            device.hw, cmds,\n            do_commit=not self.args.dont_commit\n        )", "            device.hw, cmds,\n        )"),
     ("exit-keeps-stale-context", "annet/annlib/tabparser.py", "            yield row, row_context\n            if row_context is not None:\n                last_row_context = row_context", "            yield row, row_context\n            if row_context:\n                last_row_context = row_context"),
     ("multiline-body-context-lost", "annet/annlib/patching.py", '                        "context": attrs["context"],\n                    })', '                        "context": attrs["context"] if not sub_pre else {},\n                    })'),
+    ("deploy-rules-keyed-by-row-text", "annet/rulebook/deploying.py", "            deploying[rule_id] = {", "            deploying[attrs[\"row\"]] = {"),
 ]
 
 MUTANTS["C16"] = [
